@@ -590,8 +590,8 @@ def run_property(modname, tier, seed, replay=None, only_clause=None, jobs=None, 
     for cname, f, path in violations:
         print("  violation clause=%s %s" % (cname, ("%s: %s" % (f["sig"], f["msg"]))[:600]))
         print("VIOLATION property=%s replay=%s" % (prop, path))
-    print("%s tier=%s seed=%s evaluations=%d distinct_nontrivial=%d violations=%d wall=%.1fs" % (
-        prop, tier, seed, total_eval, len(all_keys), len(violations), time.time() - t0))
+    print("%s tier=%s seed=%s evaluations=%d distinct_nontrivial=%d violations=%d%s wall=%.1fs" % (
+        prop, tier, seed, total_eval, len(all_keys), len(violations), " HARNESS-ERRORS=%d" % len(harness_errors) if harness_errors else "", time.time() - t0))
     if violations:
         return 1
     if harness_errors:
